@@ -468,6 +468,7 @@ def witness_fires(fid):
 def replay(run, path):
     """re-run one replay file: the text through the implementation, judged by S when the abstract file is recorded"""
     d = json.load(open(path))["replay"]
+    if d.get("text") is None and isinstance(d.get("first_mismatch"), dict): d = dict(d["first_mismatch"], kind="broken-tie")
     txt = d.get("text"); tr = d.get("stream", "").startswith("text-mode") or bool(d.get("translated"))
     if txt is None:
         run.log("replay file holds no input text:", d.get("kind")); return run.finish()
